@@ -70,5 +70,17 @@ pub proof fn wmc_ff_smooth<const P: u128>(p: BddPtr, w: W<FiniteField<P>>, o: Va
     reveal(VarOrder::wf);
     wmc_smooth_theorem(p, false, w, o, 0, env);
 }
+/// ... and for a BDD smoothed over the first n levels only (any n), with arbitrary weights there and normalised weights below
+pub proof fn wmc_ff_partial_smooth<const P: u128>(p: BddPtr, w: W<FiniteField<P>>, o: VarOrder, n: int, env: Env)
+    requires
+        ff_ok::<P>(), wv(w), o.wf(), ordered(p, o), 0 <= n <= o.n(), smooth_from(p, 0, n, o),
+        forall|i: int| n <= i < o.n() ==> normalised(w, #[trigger] o.pos_to_var[i] as u64),
+    ensures
+        wmc_spec(p, false, w) == zsum(indf::<FiniteField<P>>(p, false), w, levels(o, 0), env),
+{
+    lemma_csr_ff::<P>();
+    reveal(VarOrder::wf);
+    wmc_partial_smooth_theorem(p, false, w, o, 0, n, env);
+}
 } // verus!
 fn main() {}
